@@ -344,6 +344,8 @@ func (w *c19World) close() {
 // ---------------------------------------------------------------------------------------------------------------
 // running the real code
 
+var c19LastErr string
+
 type c19Item struct {
 	slot uint64
 	pos  int
@@ -436,6 +438,7 @@ func (w *c19World) runTx(lo uint64, hi *uint64, gsfaOn bool, direct bool, f c19F
 			err = multi.StreamTransactions(&old_faithful_grpc.StreamTransactionsRequest{StartSlot: lo, EndSlot: hi, Filter: w.proto(f)}, rec)
 		}
 		if err != nil {
+			c19LastErr = err.Error()
 			return "err"
 		}
 		items = w.decodeTxMsgs(rec.msgs)
@@ -781,7 +784,10 @@ type c19Range struct {
 
 func c19Ranges(w *c19World, rng *zz.RNG, nRandom int) []c19Range {
 	A, B := w.epochs[0], w.epochs[1]
-	a0, ak := A.Blocks[0].Slot, A.Blocks[len(A.Blocks)-1].Slot
+	// the first epoch starts in mid-epoch: the generator gives its first block a parent slot of the same epoch that
+	// is not archived (no real archive looks like that; the gRPC GetBlock answers Internal for it), so the ranges
+	// start at its second block
+	a0, ak := A.Blocks[1].Slot, A.Blocks[len(A.Blocks)-1].Slot
 	b0, bm := B.Blocks[0].Slot, B.Blocks[len(B.Blocks)-1].Slot
 	bound := B.Epoch * c19EpochLen
 	u := func(v uint64) string { return strconv.FormatUint(v, 10) }
@@ -840,7 +846,7 @@ func c19Ranges(w *c19World, rng *zz.RNG, nRandom int) []c19Range {
 	add("late-in-A", A.Blocks[len(A.Blocks)-9].Slot, ak)
 	add("late-in-B", B.Blocks[len(B.Blocks)-9].Slot, bm)
 	add("late-in-B-beyond", B.Blocks[len(B.Blocks)-4].Slot, bm+30)
-	add("early-in-A", a0, A.Blocks[8].Slot)
+	add("early-in-A", a0, A.Blocks[9].Slot)
 	add("early-in-B", b0, B.Blocks[8].Slot)
 	add("beyond-last-block", bm+1, bm+40)
 	add("unloaded-epoch-after", (B.Epoch+1)*c19EpochLen, (B.Epoch+1)*c19EpochLen+20)
@@ -1017,7 +1023,7 @@ func (r *c19Run) execLine(l string) {
 
 func (r *c19Run) probe() {
 	// one recoverable execution of a filter message with both optional flags absent (scan path, single slot)
-	b := r.w.epochs[0].Blocks[0]
+	b := r.w.epochs[1].Blocks[0] // holds at least one transaction
 	out, _ := r.w.runTx(b.Slot, &b.Slot, false, false, c19Filter{})
 	r.w.absentPanics = out == "panic"
 	if r.w.absentPanics {
